@@ -1,4 +1,4 @@
-import SslModel.Lemmas.Typing
+import SslModel.Lemmas.TypingFull
 import SslModel.Gen.ExecErrors
 /-!
 # C01 — type soundness (stage 1: values, subtyping, operators)
@@ -7,8 +7,10 @@ import SslModel.Gen.ExecErrors
 `Ty.sub` is the model of `Type::matches`.  Proved here, for all values and types in the stated
 fragments:
 
-* moving along the subtype relation preserves membership (`matches_sound_partial`, first-order
-  cell-free values; functions and cells need transitivity / congruence of `==`, not yet proved);
+* moving along the subtype relation preserves membership: `matches_sound` for ALL values and
+  well-formed types (functions through transitivity of `matches`, cells through transitivity of
+  `==`; function values are assumed to carry a well-formed signature), and `matches_sound_partial`
+  without any well-formedness hypothesis for first-order cell-free values;
 * union introduction / elimination, `any`, `!`;
 * the results of the scalar operators, indexing and slicing have the types the checker assigns.
 
@@ -26,6 +28,18 @@ open Ssl Ssl.Ty Ssl.Val Ssl.Spec
 theorem matches_sound_partial (v : Val) (A B : Ty) (hv : fo v = true)
     (h : sub A B = true) (hA : hasTy v A = true) : hasTy v B = true :=
   matches_sound_aux (Ty.size A + Ty.size B) v A B (Nat.le_refl _) hv h hA
+
+/-- **whenever `A` matches `B`, every value of `A` is a value of `B`** (all values: functions,
+    cells, arbitrarily nested; `A`, `B` well-formed) -/
+theorem matches_sound (v : Val) (A B : Ty) (hv : okv v = true) (wA : wf A = true) (wB : wf B = true)
+    (h : sub A B = true) (hA : hasTy v A = true) : hasTy v B = true :=
+  matches_sound_full_aux (Ty.size A + Ty.size B) v A B (Nat.le_refl _) hv wA wB h hA
+
+/-- non-vacuity: a cell inside a tuple, moved from `(int, mut int)` to `(int|string, mut int) | bool` -/
+example : hasTy (.tup [.int 1, .cell 0 .int]) (.tup [.int, .cell .int]) = true ∧
+    sub (.tup [.int, .cell .int]) (.multi [.tup [.multi [.int, .str], .cell .int], .bool]) = true ∧
+    okv (.tup [.int 1, .cell 0 .int]) = true := by
+  refine ⟨by simp [hasTy, hasTyL, eqv], by simp [sub, anyMatch, matchesL, allMatch, eqv], by simp [okv, okvL]⟩
 
 theorem any_contains_everything (v : Val) : hasTy v .any = true := hasTy_any v
 theorem never_is_empty (v : Val) : hasTy v .never = false := hasTy_never v
